@@ -55,7 +55,7 @@ func NewRawManager(opts ...ManagerOption) *RawManager {
 }
 
 func (m *RawManager) closeNodeConns() {
-	for _, node := range m.nodes {
+	for _, node := range m.Nodes() {
 		err := node.close()
 		if err != nil && m.logger != nil {
 			m.logger.Printf("error closing: %v", err)
@@ -98,7 +98,15 @@ func (m *RawManager) Node(id uint32) (node *RawNode, found bool) {
 func (m *RawManager) Nodes() []*RawNode {
 	m.mu.Lock()
 	defer m.mu.Unlock()
-	return m.nodes
+	// return a copy: the manager's slice is re-sorted when nodes are added
+	return append([]*RawNode(nil), m.nodes...)
+}
+
+// sortNodes sorts the manager's nodes by ID to ensure deterministic iteration.
+func (m *RawManager) sortNodes() {
+	m.mu.Lock()
+	defer m.mu.Unlock()
+	OrderedBy(ID).Sort(m.nodes)
 }
 
 // Size returns the number of nodes in the Manager.
